@@ -1,7 +1,7 @@
 (** C15 — equal?/eqv?/hash coherence; hash tables are finite maps: property theorems only. *)
 From Coq Require Import List ZArith Bool.
 From ChibiV Require Import Common.Words Gen.C15_Consts C15.Table C15.TableProofs C15.Obj C15.ObjProofs C15.ObjEqual C15.Graph Gen.C15_Equiv C15.Combined.
-From ChibiV Require C15.GraphProofs.
+From ChibiV Require C15.GraphProofs C15.GraphSpec.
 Import ListNotations.
 Local Open Scope Z_scope.
 
@@ -159,3 +159,9 @@ Theorem equal_on_object_graphs : forall (g : list (node obj)) res a b,
   equal_top equalb g res a b <> None.
 Proof. exact Combined.equal_on_object_graphs. Qed.
 Print Assumptions equal_on_object_graphs.
+
+(** the oracle of the correspondence runs on small graphs decides the SPEC *)
+Theorem bisim_dec_decides_bisim : forall (L : Type) (leq : L -> L -> bool) (g : list (node L)) (x y : nat),
+  bisim_dec leq g x y = true <-> bisim leq g x y.
+Proof. exact @GraphSpec.bisim_dec_correct. Qed.
+Print Assumptions bisim_dec_decides_bisim.
